@@ -60,7 +60,7 @@ def is_unambiguous(tz, naive):
 
 
 TZ_POOL_SMALL = ["UTC", "America/New_York", "Europe/Paris", "Asia/Kolkata", "Australia/Lord_Howe",
-                 "Pacific/Apia", "Asia/Kathmandu", "America/St_Johns", "Pacific/Kiritimati", "Etc/GMT+5", "Etc/GMT-3",
+                 "Pacific/Apia", "Asia/Kathmandu", "America/St_Johns", "Pacific/Kiritimati",
                  "EDT", "PST", "IST", "AEST", "CEST", "+05:30", "-0800", "UTC+3", "GMT-2", "UTC+14:00",
                  "UTC-12:00", "+0000", "Z"]
 
